@@ -112,7 +112,14 @@ class TaskScheduler(object):
                 self._schedule_batch(task.batch)
                 self._tasks.pop()
             else:
-                task._compute()
+                try:
+                    task._compute()
+                except Exception:
+                    # A future whose computation failed (e.g. a Future with a raising value
+                    # provider) has stored the error; it is delivered to the tasks awaiting it
+                    # when they are continued, like the error of any other dependency.
+                    if not task.is_computed():
+                        raise
                 self._tasks.pop()
 
     def _schedule_batch(self, batch):
